@@ -309,7 +309,11 @@ fn format_string(input: String, options: GetOptsOptions) -> Result<i32> {
         config.set_cli().file_lines(options.file_lines);
     }
 
-    for f in config.file_lines().files() {
+    // `FileLines` keeps its files in a `HashMap`: warn about them in a fixed order.
+    let file_lines = config.file_lines();
+    let mut listed_files: Vec<_> = file_lines.files().collect();
+    listed_files.sort();
+    for f in listed_files {
         match *f {
             FileName::Stdin => {}
             _ => eprintln!("Warning: Extra file listed in file_lines option '{f}'"),
@@ -680,7 +684,10 @@ impl GetOptsOptions {
     }
 
     fn verify_file_lines(&self, files: &[PathBuf]) {
-        for f in self.file_lines.files() {
+        // `FileLines` keeps its files in a `HashMap`: warn about them in a fixed order.
+        let mut listed_files: Vec<_> = self.file_lines.files().collect();
+        listed_files.sort();
+        for f in listed_files {
             match *f {
                 FileName::Real(ref f) if files.contains(f) => {}
                 FileName::Real(_) => {
